@@ -792,6 +792,8 @@ def parse_instr(line):
         rt, callee, fnty, args = parse_call_like(p)
         # skip fn attrs until 'to'
         while not p.at('to'):
+            if p.eof():
+                raise SyntaxError("invoke without 'to': " + raw[:200])
             p.next()
         p.expect('to')
         p.expect('label')
@@ -897,6 +899,9 @@ def parse_body(f):
             blocks.append((label, cur))
         if s.startswith(('catch ', 'cleanup', 'filter ')):
             continue
+        if s.startswith('to label ') and cur:
+            cur[-1] += ' ' + s
+            continue
         # switch statements span lines
         cur.append(s)
     # join multi-line switch
@@ -956,6 +961,16 @@ void __verif_abort(void);
 void __verif_throw(void);
 void __verif_unreachable(void);
 void __verif_exit(u32 code);
+u8 *__verif_new_var(u64 n);
+void __verif_new_bound(u64 n, u64 max);
+#ifndef VERIF_NEW_ELEMS
+#define VERIF_NEW_ELEMS 8
+#endif
+/* operator new(n) whose result is used as T[]: one typed block of VERIF_NEW_ELEMS elements (constant size) */
+#define VERIF_NEW_VAR(T, n) (__verif_new_bound((n), sizeof(T) * VERIF_NEW_ELEMS), malloc(sizeof(T) * VERIF_NEW_ELEMS))
+#ifndef __CPROVER
+#define __CPROVER_assume(c) do { } while (0)
+#endif
 #endif
 '''
 
@@ -1126,6 +1141,37 @@ class Emitter:
             lines.append('  %s f%d;' % (self.ct(ft), i))
         packed = ' __attribute__((packed))' if body[2] else ''
         self.tdecl.append('struct %s {\n%s\n}%s;' % (tg, '\n'.join(lines), packed))
+
+    def size_align(self, t):
+        k = t[0]
+        if k == 'int':
+            w = round_width(t[1]) // 8
+            return w, min(w, 8) if w < 16 else 16
+        if k == 'ptr':
+            return 8, 8
+        if k == 'fp':
+            return {'float': (4, 4), 'double': (8, 8), 'half': (2, 2)}.get(t[1], (16, 16))
+        if k == 'arr':
+            s_, a_ = self.size_align(t[2])
+            return s_ * t[1], a_
+        if k == 'named':
+            b = self.m.types.get(t[1])
+            if b is None or b[0] == 'opaque':
+                raise NotImplementedError('sizeof opaque ' + t[1])
+            return self.size_align(b)
+        if k == 'struct':
+            off = 0
+            al = 1
+            for ft in t[1]:
+                s_, a_ = self.size_align(ft)
+                if t[2]:
+                    a_ = 1
+                off = (off + a_ - 1) // a_ * a_
+                off += s_
+                al = max(al, a_)
+            off = (off + al - 1) // al * al
+            return off, al
+        raise NotImplementedError('sizeof %r' % (t,))
 
     def resolve(self, t):
         while t[0] == 'named':
@@ -1732,6 +1778,37 @@ class FnEmitter:
                 else:
                     self.emit('%s = %s%s(%s);' % (r, cast, name, ', '.join(argv)))
                 return
+            if name in ('_Znwm', '_Znam') and (f is None or not f.defined):
+                # CBMC's array theory blows up on heap objects of symbolic size: allocations whose size is not an
+                # IR constant go through __verif_new_var (size rounded up to a power of two, bounded).
+                t0, v0, _ = args[0]
+                # element type = pointee of the first bitcast of the result (CBMC types heap objects from the
+                # sizeof in the malloc argument; untyped byte arrays make every struct access a byte_update)
+                et = None
+                for _l, _ins in self.f.blocks:
+                    for j in _ins:
+                        if j.op == 'cast' and j.a['cop'] == 'bitcast' and j.a['x'] == ('local', i.res) and j.ty[0] == 'ptr':
+                            et = j.ty[1]
+                            break
+                    if et:
+                        break
+                esz = None
+                if et is not None and et[0] != 'func':
+                    try:
+                        esz = em.size_align(et)[0]
+                        em.complete(et)
+                    except NotImplementedError:
+                        esz = None
+                if v0[0] == 'int':
+                    if esz and v0[1] % esz == 0 and v0[1] > 0:
+                        self.emit('%s(u8*)malloc(sizeof(%s) * %d); __CPROVER_assume(%s != 0);' % (asg, em.ct(et), v0[1] // esz, r))
+                    else:
+                        self.emit('%s(u8*)malloc(%d); __CPROVER_assume(%s != 0);' % (asg, v0[1], r))
+                elif esz:
+                    self.emit('%s(u8*)VERIF_NEW_VAR(%s, %s);' % (asg, em.ct(et), self.val(v0, t0)))
+                else:
+                    self.emit('%s__verif_new_var(%s);' % (asg, self.val(v0, t0)))
+                return
             em.ref_global(name, called=True)
             argv = [self.val(v, t) for t, v, _ in args]
             if f is not None and not f.vararg and a['fnty'] is None:
@@ -1839,13 +1916,21 @@ class FnEmitter:
             raise NotImplementedError("intrinsic " + name)
 
 
+STABLE_STRUCTS = {'class.std::__cxx11::basic_string'}
+
+
 def emitter_methods():
-    def fn_signature(self, f, named):
+    def fn_signature(self, f, named, weak=False):
         rt = self.ct(f.ret)
         self.complete(f.ret)
         ps = []
         for t, n, a in f.params:
             self.complete(t) if t[0] in ('struct', 'named') else self.ct(t)
+            if weak and t[0] == 'ptr' and t[1][0] == 'named' and t[1][1] not in STABLE_STRUCTS:
+                # clang/llvm-link merge structurally identical struct types, so the pointee *name* of a
+                # bodyless function's parameter is not stable: models and stubs take void*.
+                ps.append('void*')
+                continue
             if named:
                 ps.append('%s %s' % (self.ct(t), ('v' + san(n))))
             else:
@@ -2001,8 +2086,9 @@ def translate(ll_text, roots, cut=(), opts=None, keep_addr_taken=()):
         gtxt.append('%s %s = %s;' % (em.ct(g.ty), em.cident(name), const_init(em, cfe, g.init, g.ty)))
     # there may be new globals referenced by const_init (function refs) -> they were scanned already.
     proto_txt = []
+    enc = set(encoded)
     for name, f in protos:
-        proto_txt.append(em.fn_signature(f, False) + ';')
+        proto_txt.append(em.fn_signature(f, False, weak=(name not in enc)) + ';')
     have = ['#define HAVE_%s 1' % tg for tg in sorted(em.used_tags)]
     h = [PRELUDE, '\n'.join(em.fwd), '\n'.join(em.tdecl), '\n'.join(have), '\n'.join(defmacros), '\n'.join(gl_decls),
          '\n'.join(proto_txt)]
